@@ -166,7 +166,7 @@ func (d *Decoder) decode() starlark.Value {
 			d.push(starlark.MakeInt(int(d.readByte())))
 		case opBININT2:
 			l, h := d.readByte(), d.readByte()
-			d.push(starlark.MakeInt(int(l) | int(h)<<16))
+			d.push(starlark.MakeInt(int(l) | int(h)<<8))
 		case opBININT:
 			d.push(starlark.MakeInt(int(int32(d.readUint32()))))
 		case opBINFLOAT:
